@@ -755,7 +755,7 @@ class Interp:
             if sa is not None and sb is not None and sa[1] == sb[1]:
                 if isinstance(a, (PyTuple, PyList)) and isinstance(b, (PyTuple, PyList)):
                     return type(a)(a.items + b.items)
-                return SymSeq(z3.Concat(sa[0], sb[0]), sa[1])
+                return SymList(z3.Concat(sa[0], sb[0])) if sa[1] == "list" else SymSeq(z3.Concat(sa[0], sb[0]), sa[1])
         if op in ("or", "and", "sub") and (isinstance(a, SymSet) or isinstance(b, SymSet)):
             sa, sb = self.as_set(a), self.as_set(b)
             return SymSet({"or": z3.SetUnion, "and": z3.SetIntersect, "sub": z3.SetDifference}[op](sa, sb))
@@ -2187,6 +2187,11 @@ class Interp:
             raise Unsupported("augassign target")
         rhs = self.eval(s.value, env)
         op = BINOPS[type(s.op)]
+        if isinstance(cur, SymList) and op == "add":        # list += iterable: in-place extend
+            if self.pure_depth:
+                raise Unsupported("mutation inside lifted body")
+            cur.t = z3.Concat(cur.t, self.as_seq(rhs))
+            return
         if isinstance(cur, PyList) and op == "add":
             if self.pure_depth:
                 raise Unsupported("mutation inside lifted body")
